@@ -32,7 +32,7 @@ Fixpoint fc (e : exp) : ascii :=
   | EField p _ | EIndex p _ | ECall p _ _ | EMethod p _ _ _ => fc p
   | EUn Neg _ => "-" | EUn Not _ => "n" | EUn Len _ => "#" | EUn BNot _ => "~"
   | EBin _ l _ => fc l
-  | EParen _ => "(" | ETable _ => "{"
+  | EParen _ => "(" | ETable _ | ETableML _ => "{"
   | FPos x => fc x | FNamed n _ => hd0 n | FKey _ _ => "["
   end.
 (* the first characters an expression that is not a table field can have *)
@@ -61,7 +61,7 @@ Fixpoint wfe (e : exp) : Prop :=
   | EUn u x => wfe x /\ isfield x = false /\ match u with Neg => Ascii.eqb (fc x) "-" = false | Not | Len => True | BNot => False end
   | EBin b l r => wf_bop b = true /\ wfe l /\ isfield l = false /\ wfe r /\ isfield r = false
   | EParen x => wfe x /\ isfield x = false
-  | ETable fs => all fs true
+  | ETable fs | ETableML fs => all fs true
   | FPos x => wfe x /\ isfield x = false
   | FNamed n x => wf_name n /\ wfe x /\ isfield x = false
   | FKey k x => wfe k /\ isfield k = false /\ wfe x /\ isfield x = false
@@ -83,18 +83,19 @@ Proof.
 Qed.
 
 (* the first token of what an expression prints starts with fc, whatever follows *)
-Lemma pexp_ne e : pexp e <> [].
+Lemma pexp_ne d e : pexp d e <> [].
 Proof.
-  induction e; cbn [Fmt0.pexp]; try discriminate; try (destruct (pexp e) eqn:E; [contradiction|discriminate]);
-    try (destruct (pexp e1) eqn:E; [contradiction|discriminate]).
+  revert d. induction e; intros d; cbn [Fmt0.pexp]; try discriminate; try (destruct (pexp d e) eqn:E; [exfalso; apply (IHe d); exact E|discriminate]);
+    try (destruct (pexp d e1) eqn:E; [exfalso; apply (IHe1 d); exact E|discriminate]).
   - destruct u; discriminate.
+  - destruct fs; discriminate.
   - destruct fs; discriminate.
 Qed.
 Lemma nextc_app_ne a b n : a <> [] -> LexAdj.nextc (a ++ b) n = LexAdj.nextc a None.
 Proof. destruct a; [contradiction|reflexivity]. Qed.
-Lemma nextc_pexp : forall e nx, wfe e -> LexAdj.nextc (pexp e) nx = Some (fc e).
+Lemma nextc_pexp : forall e d nx, wfe e -> LexAdj.nextc (pexp d e) nx = Some (fc e).
 Proof.
-  induction e; intros nx W; cbn [Fmt0.pexp fc]; try reflexivity.
+  induction e; intros d nx W; cbn [Fmt0.pexp fc]; try reflexivity.
   - cbn [wfe] in W. destruct s as [|c0 s']; [contradiction|]. destruct (wf_decimal_digit _ _ W) as [D _].
     rewrite (number_rewrite_digit c0 s' D). reflexivity.
   - unfold pstr. destruct (QuoteMore.choose sty s); reflexivity.
@@ -108,6 +109,7 @@ Proof.
   - destruct fs; reflexivity.
   - destruct W as (W & _). apply IHe. exact W.
   - destruct W as (W & _). destruct (wf_name_hd n W) as (c & r & E & _). subst. reflexivity.
+  - destruct fs; reflexivity.
 Qed.
 Lemma fc_good : forall e, wfe e -> isfield e = false -> good (fc e) = true.
 Proof.
@@ -165,6 +167,21 @@ Lemma safe_kw_word s n : (match str s with c0 :: _ => Lex.is_ident_start c0 | []
 Proof. unfold kw. cbn [LexAdj.safe]. destruct (str s) as [|c0 r]; [discriminate|]. intros H W. rewrite H. exact W. Qed.
 
 (* ---- every printed token is well formed ---- *)
+(* the indentation of a line (an indent width of zero would print an empty whitespace token: excluded) *)
+Hypothesis Hwidth : spaces0 cf = true -> width0 cf <> 0.
+Lemma wf_eol : wf_tok (eol cf). Proof. unfold eol. destruct (windows0 cf); [right; left; reflexivity|left; reflexivity]. Qed.
+Lemma indent_chars d : exists x k, (if spaces0 cf return bytes then repeat Lex.SP (S d * width0 cf) else repeat Lex.TAB (S d)) = x :: k /\ blank x = true /\ forallb blank k = true.
+Proof.
+  destruct (spaces0 cf) eqn:Sp.
+  - destruct (width0 cf) as [|w] eqn:Wd; [exfalso; apply (Hwidth eq_refl); reflexivity|].
+    exists Lex.SP, (repeat Lex.SP (w + d * S w)). split; [reflexivity|]. split; [reflexivity|]. apply Fmt0Proof.forallb_repeat. reflexivity.
+  - exists Lex.TAB, (repeat Lex.TAB d). split; [reflexivity|]. split; [reflexivity|]. apply Fmt0Proof.forallb_repeat. reflexivity.
+Qed.
+Lemma wf_indent d : Forall wf_tok (indent cf d).
+Proof.
+  destruct d as [|d]; [constructor|]. unfold indent. destruct (indent_chars d) as (x & k & EQ & B1 & B2). rewrite EQ.
+  constructor; [|constructor]. right. right. split; [discriminate|]. cbn [forallb]. rewrite B1, B2. reflexivity.
+Qed.
 Lemma wf_kw_word s : wf_ident (str s) -> is_keyword v (str s) = true -> wf_tok (kw s).
 Proof. intros W K. unfold kw. cbn [LexAdj.wf_tok]. destruct (str s) as [|c0 r] eqn:E; [destruct W|]. destruct W as [W1 W2]. rewrite W1. split; [split; assumption|exact K]. Qed.
 Lemma wf_kw_sym s : (match str s with c0 :: _ => Lex.is_ident_start c0 | [] => true end) = false -> wf_tok (kw s).
@@ -192,9 +209,9 @@ Proof.
   - apply Forall_app. split; [destruct (CallForm.space_call (space0 cf)); [constructor; [apply wf_sp|constructor]|constructor]|].
     constructor; [apply wf_kw_sym; reflexivity|]. apply Forall_app. split; [exact H|constructor; [apply wf_kw_sym; reflexivity|constructor]].
 Qed.
-Lemma wf_toks_pexp : forall e, wfe e -> Forall wf_tok (pexp e).
+Lemma wf_toks_pexp : forall e, wfe e -> forall d, Forall wf_tok (pexp d e).
 Proof.
-  induction e using exp_ind'; intros W; cbn [Fmt0.pexp].
+  induction e using exp_ind'; intros W d; cbn [Fmt0.pexp].
   - repeat constructor.
   - repeat constructor.
   - repeat constructor.
@@ -225,6 +242,10 @@ Proof.
   - destruct W as (N & W & _). constructor; [exact N|]. constructor; [apply wf_sp|]. constructor; [apply wf_kw_sym; reflexivity|]. constructor; [apply wf_sp|apply IHe; exact W].
   - destruct W as (W1 & _ & W2 & _). constructor; [apply wf_kw_sym; reflexivity|]. apply Forall_app. split; [apply IHe1; exact W1|].
     constructor; [apply wf_kw_sym; reflexivity|]. constructor; [apply wf_sp|]. constructor; [apply wf_kw_sym; reflexivity|]. constructor; [apply wf_sp|apply IHe2; exact W2].
+  - (* a table over several lines *) destruct fs as [|f fs]; [repeat constructor; apply wf_kw_sym; reflexivity|].
+    constructor; [apply wf_kw_sym; reflexivity|]. constructor; [apply wf_eol|]. apply Forall_app. split; [|apply Forall_app; split; [apply wf_indent|constructor; [apply wf_kw_sym; reflexivity|constructor]]].
+    change (wfl (f :: fs) true) in W. apply wfl_Forall in W. apply Forall_concat. apply Forall_map. rewrite Forall_forall in *. intros x Hx.
+    apply Forall_app. split; [apply wf_indent|]. apply Forall_app. split; [apply H; [exact Hx|apply (W x Hx)]|]. constructor; [apply wf_kw_sym; reflexivity|constructor; [apply wf_eol|constructor]].
 Qed.
 
 (* ---- adjacency: every token of an expression is compatible with what follows it ---- *)
@@ -258,7 +279,7 @@ Proof.
   - destruct (Ascii.eqb c ":") eqn:E; [|reflexivity]. apply Ascii.eqb_eq in E. subst. discriminate.
 Qed.
 
-Lemma elem_pexp a : wfe a -> (forall n, okn a n = true -> adj_ok (pexp a) n = true) -> elem (pexp a).
+Lemma elem_pexp d a : wfe a -> (forall n, okn a n = true -> adj_ok (pexp d a) n = true) -> elem (pexp d a).
 Proof.
   intros W A. exists (fc a). split; [apply fc_nb; exact W|]. split; [intros n; apply nextc_pexp; exact W|].
   intros n C. apply A. apply okn_of_clo. exact C.
@@ -273,35 +294,92 @@ Proof. destruct b; try discriminate; intros _; reflexivity. Qed.
 Lemma nextc_pargs b xs n : nextc (pargs cf b xs) n = Some (if b then Lex.SP else if CallForm.space_call (space0 cf) then Lex.SP else "(").
 Proof. unfold pargs, gap_call, gap_sugar. destruct b; [reflexivity|]. destruct (CallForm.space_call (space0 cf)); reflexivity. Qed.
 (* a string or a table is compatible with whatever follows it *)
-Lemma adj_sugar_indep x nx nx' : sugarable [x] = true -> adj_ok (pexp x) nx = adj_ok (pexp x) nx'.
+Lemma adj_sugar_indep d x nx nx' : sugarable [x] = true -> adj_ok (pexp d x) nx = adj_ok (pexp d x) nx'.
 Proof.
-  destruct x; try discriminate; intros _; [reflexivity|]. destruct fs as [|f fs]; [reflexivity|].
-  change (pexp (ETable (f :: fs))) with (kw "{" :: sp :: commas (map pexp (f :: fs)) ++ [sp; kw "}"]).
-  rewrite !adj_cons, !adj_app.
-  replace (nextc (commas (map pexp (f :: fs)) ++ [sp; kw "}"]) nx) with (nextc (commas (map pexp (f :: fs)) ++ [sp; kw "}"]) nx') by (destruct (commas (map pexp (f :: fs))); reflexivity).
-  reflexivity.
+  destruct x; try discriminate; intros _; [reflexivity| |].
+  - destruct fs as [|f fs]; [reflexivity|].
+    change (pexp d (ETable (f :: fs))) with (kw "{" :: sp :: commas (map (pexp d) (f :: fs)) ++ [sp; kw "}"]).
+    rewrite !adj_cons, !adj_app.
+    replace (nextc (commas (map (pexp d) (f :: fs)) ++ [sp; kw "}"]) nx) with (nextc (commas (map (pexp d) (f :: fs)) ++ [sp; kw "}"]) nx') by (destruct (commas (map (pexp d) (f :: fs))); reflexivity).
+    reflexivity.
+  - destruct fs as [|f fs]; [reflexivity|]. rewrite !(Fmt0Proof.p_tableml cf). rewrite !adj_cons, !adj_app.
+    replace (nextc (Fmt0Proof.tlines cf d (f :: fs) ++ indent cf d ++ [kw "}"]) nx) with (nextc (Fmt0Proof.tlines cf d (f :: fs) ++ indent cf d ++ [kw "}"]) nx')
+      by (destruct (Fmt0Proof.tlines cf d (f :: fs)); [destruct (indent cf d); reflexivity|reflexivity]).
+    replace (nextc (indent cf d ++ [kw "}"]) nx) with (nextc (indent cf d ++ [kw "}"]) nx') by (destruct (indent cf d); reflexivity).
+    reflexivity.
 Qed.
-Lemma adj_pargs sg args nx :
-  Forall (fun e => wfe e -> forall nx, okn e nx = true -> adj_ok (pexp e) nx = true) args -> wfl args false ->
-  adj_ok (pargs cf (sg && sugarable args) (commas (map pexp args))) nx = true.
+Lemma adj_pargs d sg args nx :
+  Forall (fun e => wfe e -> forall d nx, okn e nx = true -> adj_ok (pexp d e) nx = true) args -> wfl args false ->
+  adj_ok (pargs cf (sg && sugarable args) (commas (map (pexp d) args))) nx = true.
 Proof.
   intros H W2. apply wfl_Forall in W2. rewrite Forall_forall in *.
-  assert (E : Forall elem (map pexp args)).
+  assert (E : Forall elem (map (pexp d) args)).
   { apply Forall_map. apply Forall_forall. intros x Hx. apply elem_pexp; [apply (W2 x Hx)|]. intros m M. apply H; [exact Hx|apply (W2 x Hx)|exact M]. }
   unfold pargs. destruct (sg && sugarable args) eqn:S.
   - apply andb_true_iff in S. destruct S as [_ S]. destruct args as [|x [|y r]]; [discriminate| |destruct x; discriminate].
     cbn [map commas]. rewrite adj_cons. assert (Wx : wfe x) by (apply (W2 x); left; reflexivity). apply andb_true_iff. split.
-    + rewrite (nextc_pexp x nx Wx). unfold gap_sugar. assert (B := fc_nb x Wx).
+    + rewrite (nextc_pexp x d nx Wx). unfold gap_sugar. assert (B := fc_nb x Wx).
       destruct (CallForm.space_call (space0 cf)); exact B.
-    + rewrite (adj_sugar_indep x nx None S). apply H; [left; reflexivity|exact Wx|reflexivity].
-  - unfold gap_call. assert (G : adj_ok (kw "(" :: commas (map pexp args) ++ [kw ")"]) nx = true).
+    + rewrite (adj_sugar_indep d x nx None S). apply H; [left; reflexivity|exact Wx|reflexivity].
+  - unfold gap_call. assert (G : adj_ok (kw "(" :: commas (map (pexp d) args) ++ [kw ")"]) nx = true).
     { rewrite adj_cons. apply andb_true_iff. split; [reflexivity|]. rewrite adj_app. apply andb_true_iff. split; [|reflexivity]. apply adj_commas; [exact E|reflexivity]. }
     destruct (CallForm.space_call (space0 cf)); [|exact G]. cbn [app]. rewrite adj_cons, G. reflexivity.
 Qed.
 
-Theorem adj_pexp : forall e, wfe e -> forall nx, okn e nx = true -> adj_ok (pexp e) nx = true.
+(* ---- good segments: the combinators the multi-line table and the statements are assembled with ---- *)
+Definition gs (x : list tok) (n : LexAdj.nc) : Prop := Forall wf_tok x /\ adj_ok x n = true.
+Lemma gs_nil n : gs [] n. Proof. split; [constructor|reflexivity]. Qed.
+Lemma gs_cons t r n : wf_tok t -> safe t (nextc r n) = true -> gs r n -> gs (t :: r) n.
+Proof. intros W S [A B]. split; [constructor; assumption|]. rewrite adj_cons, S, B. reflexivity. Qed.
+Lemma gs_app a b n : gs a (nextc b n) -> gs b n -> gs (a ++ b) n.
+Proof. intros [A1 A2] [B1 B2]. split; [apply Forall_app; split; assumption|]. rewrite adj_app, A2, B2. reflexivity. Qed.
+Definition eolc : ascii := if windows0 cf then Lex.CR else Lex.LF.
+Lemma nextc_eol r n : nextc (eol cf :: r) n = Some eolc. Proof. unfold eol, eolc. destruct (windows0 cf); reflexivity. Qed.
+Lemma safe_eol n : safe (eol cf) n = true. Proof. unfold eol. destruct (windows0 cf); reflexivity. Qed.
+Lemma clo_eolc : clo (Some eolc) = true. Proof. unfold eolc. destruct (windows0 cf); reflexivity. Qed.
+Lemma word_eolc : LexAdj.word_follow (Some eolc) = true. Proof. unfold eolc. destruct (windows0 cf); reflexivity. Qed.
+Lemma gs_eol r n : gs r n -> gs (eol cf :: r) n.
+Proof. intros H. apply gs_cons; [apply wf_eol|apply safe_eol|exact H]. Qed.
+(* what may follow a statement on its line: the blank before a trailing comment, or the line ending *)
+Definition eolish (n : LexAdj.nc) : bool := match n with Some x => Ascii.eqb x Lex.SP || Ascii.eqb x Lex.CR || Ascii.eqb x Lex.LF | None => false end.
+Lemma eolish_clo n : eolish n = true -> clo n = true.
+Proof. destruct n as [x|]; [|discriminate]. cbn. intros H. cases_of H; reflexivity. Qed.
+Lemma eolish_word n : eolish n = true -> LexAdj.word_follow n = true. Proof. intros H. apply clo_word. apply eolish_clo. exact H. Qed.
+Lemma eolish_eolc : eolish (Some eolc) = true. Proof. unfold eolc. destruct (windows0 cf); reflexivity. Qed.
+
+(* keywords *)
+Lemma gs_word s r n : wf_tok (kw s) -> (match str s with c0 :: _ => Lex.is_ident_start c0 | [] => false end) = true ->
+  LexAdj.word_follow (nextc r n) = true -> gs r n -> gs (kw s :: r) n.
+Proof. intros W I F H. apply gs_cons; [exact W|apply safe_kw_word; assumption|exact H]. Qed.
+Lemma gs_sp r n : (exists ch, nextc r n = Some ch /\ nb ch = true) -> gs r n -> gs (sp :: r) n.
+Proof. intros (ch & E & B) H. apply gs_cons; [apply wf_sp|rewrite E; apply safe_sp; exact B|exact H]. Qed.
+Lemma gs_sym s r n : wf_tok (kw s) -> safe (kw s) (nextc r n) = true -> gs r n -> gs (kw s :: r) n.
+Proof. intros. apply gs_cons; assumption. Qed.
+
+Lemma blank_nb_follow ch : nb ch = true -> negb (blank ch) && negb (Lex.eqc ch Lex.LF) && negb (Lex.eqc ch Lex.CR) = true.
+Proof. intros H. exact H. Qed.
+Lemma gs_indent d r n : (exists ch, nextc r n = Some ch /\ nb ch = true) -> gs r n -> gs (indent cf d ++ r) n.
 Proof.
-  induction e using exp_ind'; intros W nx K; cbn [Fmt0.pexp].
+  intros (ch & E & B) H. destruct d as [|d]; [exact H|]. unfold indent. cbn [app].
+  assert (X : exists x k, (if spaces0 cf return bytes then repeat Lex.SP (S d * width0 cf) else repeat Lex.TAB (S d)) = x :: k /\ blank x = true /\ forallb blank k = true).
+  { destruct (spaces0 cf) eqn:Sp.
+    - destruct (width0 cf) as [|w] eqn:Wd; [exfalso; apply (Hwidth eq_refl); reflexivity|].
+      exists Lex.SP, (repeat Lex.SP (w + d * S w)). split; [reflexivity|]. split; [reflexivity|]. apply Fmt0Proof.forallb_repeat. reflexivity.
+    - exists Lex.TAB, (repeat Lex.TAB d). split; [reflexivity|]. split; [reflexivity|]. apply Fmt0Proof.forallb_repeat. reflexivity. }
+  destruct X as (x & k & EQ & B1 & B2). rewrite EQ. apply gs_cons; [| |exact H].
+  - right. right. split; [discriminate|]. cbn [forallb]. rewrite B1, B2. reflexivity.
+  - rewrite E. cbn [safe].
+    assert (N1 : beqb (x :: k) [Lex.LF] = false).
+    { destruct k; cbn [beqb]; [|apply andb_false_r]. rewrite andb_true_r. unfold blank in B1. destruct (Lex.eqc x Lex.LF) eqn:Q; [|reflexivity]. apply Ascii.eqb_eq in Q. subst x. discriminate. }
+    assert (N2 : beqb (x :: k) [Lex.CR; Lex.LF] = false).
+    { cbn [beqb]. unfold blank in B1. destruct (Lex.eqc x Lex.CR) eqn:Q; [|reflexivity]. apply Ascii.eqb_eq in Q. subst x. discriminate. }
+    rewrite N1, N2. cbn [orb]. exact B.
+Qed.
+
+
+Theorem adj_pexp : forall e, wfe e -> forall d nx, okn e nx = true -> adj_ok (pexp d e) nx = true.
+Proof.
+  induction e using exp_ind'; intros W d nx K; cbn [Fmt0.pexp].
   - (* nil *) rewrite adj_cons, andb_true_r. apply safe_kw_word; [reflexivity|]. apply (okn_word _ _ K).
   - rewrite adj_cons, andb_true_r. apply safe_kw_word; [reflexivity|]. apply (okn_word _ _ K).
   - rewrite adj_cons, andb_true_r. apply safe_kw_word; [reflexivity|]. apply (okn_word _ _ K).
@@ -318,7 +396,7 @@ Proof.
   - (* p[k] *) destruct W as (W1 & P & W2 & F). rewrite adj_app. apply andb_true_iff. split.
     + apply IHe1; [exact W1|]. apply okn_of_clop; [exact P|reflexivity].
     + rewrite adj_cons. apply andb_true_iff. split.
-      * rewrite nextc_app_ne by apply pexp_ne. rewrite (nextc_pexp e2 None W2).
+      * rewrite nextc_app_ne by apply pexp_ne. rewrite (nextc_pexp e2 d None W2).
         destruct (good_safe_facts _ (fc_good e2 W2 F)) as (A & B & _).
         change (LexAdj.ne "[" (Some (fc e2)) && LexAdj.ne "=" (Some (fc e2)) = true). rewrite A, B. reflexivity.
       * rewrite adj_app. apply andb_true_iff. split; [|reflexivity]. apply IHe2; [exact W2|]. apply okn_of_clo. reflexivity.
@@ -335,7 +413,7 @@ Proof.
         cbn [safe]. rewrite nextc_pargs. destruct (sg && sugarable args); [reflexivity|]. destruct (CallForm.space_call (space0 cf)); reflexivity.
   - (* unary *) destruct W as (W & F & U). assert (C : clo nx = true) by (eapply okn_clo; [|exact K]; reflexivity).
     rewrite adj_app. apply andb_true_iff. split; [|apply IHe; [exact W|apply okn_of_clo; exact C]].
-    rewrite (nextc_pexp e nx W). destruct u; cbn [uop_toks]; try contradiction.
+    rewrite (nextc_pexp e d nx W). destruct u; cbn [uop_toks]; try contradiction.
     + (* minus *) rewrite adj_cons, andb_true_r. destruct (good_safe_facts _ (fc_good e W F)) as (_ & B & D).
       change (LexAdj.ne "-" (Some (fc e)) && LexAdj.ne "=" (Some (fc e)) && LexAdj.ne ">" (Some (fc e)) = true). rewrite B, D.
       unfold LexAdj.ne, Lex.eqc. rewrite U. reflexivity.
@@ -345,33 +423,45 @@ Proof.
     rewrite adj_app. apply andb_true_iff. split; [apply IHe1; [exact W1|apply okn_of_clo; reflexivity]|].
     rewrite adj_cons. apply andb_true_iff. split; [destruct b; try discriminate; reflexivity|].
     rewrite adj_cons. apply andb_true_iff. split; [apply safe_bop; exact B|].
-    rewrite adj_cons. apply andb_true_iff. split; [rewrite (nextc_pexp e2 nx W2); apply safe_sp; apply fc_nb; exact W2|].
+    rewrite adj_cons. apply andb_true_iff. split; [rewrite (nextc_pexp e2 d nx W2); apply safe_sp; apply fc_nb; exact W2|].
     apply IHe2; [exact W2|apply okn_of_clo; exact C].
   - (* parens *) destruct W as (W & F). rewrite adj_cons. apply andb_true_iff. split; [reflexivity|].
     rewrite adj_app. apply andb_true_iff. split; [|reflexivity]. apply IHe; [exact W|apply okn_of_clo; reflexivity].
   - (* table *) destruct fs as [|f fs]; [reflexivity|]. change (wfl (f :: fs) true) in W.
     rewrite adj_cons. apply andb_true_iff. split; [reflexivity|]. rewrite adj_cons. apply wfl_Forall in W.
-    assert (E : Forall elem (map pexp (f :: fs))).
+    assert (E : Forall elem (map (pexp d) (f :: fs))).
     { apply Forall_map. rewrite Forall_forall in *. intros x Hx. apply elem_pexp; [apply (W x Hx)|]. intros m M. apply H; [exact Hx|apply (W x Hx)|exact M]. }
     apply andb_true_iff. split.
     + cbn [map] in E |- *. inversion E as [|? ? Ef _]; subst.
-      assert (NE : commas (pexp f :: map pexp fs) <> []).
-      { intros Hc. pose proof (nextc_commas (pexp f) (map pexp fs) None Ef) as Q. rewrite Hc in Q. destruct Ef as (c & _ & N & _). rewrite (N None) in Q. discriminate. }
-      rewrite (nextc_app_ne _ _ nx NE), (nextc_commas (pexp f) (map pexp fs) None Ef). destruct Ef as (c & B & N & _). rewrite (N None). apply safe_sp. exact B.
+      assert (NE : commas (pexp d f :: map (pexp d) fs) <> []).
+      { intros Hc. pose proof (nextc_commas (pexp d f) (map (pexp d) fs) None Ef) as Q. rewrite Hc in Q. destruct Ef as (c & _ & N & _). rewrite (N None) in Q. discriminate. }
+      rewrite (nextc_app_ne _ _ nx NE), (nextc_commas (pexp d f) (map (pexp d) fs) None Ef). destruct Ef as (c & B & N & _). rewrite (N None). apply safe_sp. exact B.
     + rewrite adj_app. apply andb_true_iff. split; [apply adj_commas; [exact E|reflexivity]|reflexivity].
   - (* positional field *) destruct W as (W & F). apply IHe; [exact W|]. apply okn_of_clo. eapply okn_clo; [|exact K]; reflexivity.
   - (* named field *) destruct W as (N & W & F). assert (C : clo nx = true) by (eapply okn_clo; [|exact K]; reflexivity).
     rewrite adj_cons. apply andb_true_iff. split; [reflexivity|]. rewrite adj_cons. apply andb_true_iff. split; [reflexivity|].
-    rewrite adj_cons. apply andb_true_iff. split; [reflexivity|]. rewrite adj_cons. apply andb_true_iff. split; [rewrite (nextc_pexp e nx W); apply safe_sp; apply fc_nb; exact W|].
+    rewrite adj_cons. apply andb_true_iff. split; [reflexivity|]. rewrite adj_cons. apply andb_true_iff. split; [rewrite (nextc_pexp e d nx W); apply safe_sp; apply fc_nb; exact W|].
     apply IHe; [exact W|apply okn_of_clo; exact C].
   - (* keyed field *) destruct W as (W1 & F1 & W2 & F2). assert (C : clo nx = true) by (eapply okn_clo; [|exact K]; reflexivity).
     rewrite adj_cons. apply andb_true_iff. split.
-    + rewrite nextc_app_ne by apply pexp_ne. rewrite (nextc_pexp e1 None W1). destruct (good_safe_facts _ (fc_good e1 W1 F1)) as (A & B & _).
+    + rewrite nextc_app_ne by apply pexp_ne. rewrite (nextc_pexp e1 d None W1). destruct (good_safe_facts _ (fc_good e1 W1 F1)) as (A & B & _).
       change (LexAdj.ne "[" (Some (fc e1)) && LexAdj.ne "=" (Some (fc e1)) = true). rewrite A, B. reflexivity.
     + rewrite adj_app. apply andb_true_iff. split; [apply IHe1; [exact W1|apply okn_of_clo; reflexivity]|].
       rewrite adj_cons. apply andb_true_iff. split; [reflexivity|]. rewrite adj_cons. apply andb_true_iff. split; [reflexivity|].
-      rewrite adj_cons. apply andb_true_iff. split; [reflexivity|]. rewrite adj_cons. apply andb_true_iff. split; [rewrite (nextc_pexp e2 nx W2); apply safe_sp; apply fc_nb; exact W2|].
+      rewrite adj_cons. apply andb_true_iff. split; [reflexivity|]. rewrite adj_cons. apply andb_true_iff. split; [rewrite (nextc_pexp e2 d nx W2); apply safe_sp; apply fc_nb; exact W2|].
       apply IHe2; [exact W2|apply okn_of_clo; exact C].
+  - (* a table over several lines: assembled from good segments *)
+    destruct fs as [|f fs]; [reflexivity|]. change (wfl (f :: fs) true) in W. apply wfl_Forall in W.
+    change (adj_ok (kw "{" :: eol cf :: Fmt0Proof.tlines cf d (f :: fs) ++ indent cf d ++ [kw "}"]) nx = true).
+    assert (L : forall l m, Forall (fun x => wfe x /\ isfield x = true) l -> Forall (fun e => wfe e -> forall d nx, okn e nx = true -> adj_ok (pexp d e) nx = true) l -> gs (Fmt0Proof.tlines cf d l) m).
+    { intros l m Wl Hl. unfold Fmt0Proof.tlines. induction Wl as [|x r [Wx _] Wr IH]; [apply gs_nil|]. inversion Hl as [|? ? Hx Hr]; subst. cbn [map List.concat].
+      apply gs_app; [|apply IH; exact Hr]. apply gs_indent.
+      - exists (fc x). split; [rewrite nextc_app_ne by apply pexp_ne; apply nextc_pexp; exact Wx|apply fc_nb; exact Wx].
+      - apply gs_app; [split; [apply wf_toks_pexp; exact Wx|apply Hx; [exact Wx|reflexivity]]|].
+        apply gs_sym; [apply wf_kw_sym; reflexivity|reflexivity|]. apply gs_eol. apply gs_nil. }
+    assert (G : gs (kw "{" :: eol cf :: Fmt0Proof.tlines cf d (f :: fs) ++ indent cf d ++ [kw "}"]) nx); [|exact (proj2 G)].
+    apply gs_sym; [apply wf_kw_sym; reflexivity|reflexivity|]. apply gs_eol. apply gs_app; [apply L; assumption|].
+    apply gs_indent; [exists "}"%char; split; reflexivity|]. apply gs_sym; [apply wf_kw_sym; reflexivity|reflexivity|apply gs_nil].
 Qed.
 
 (* ================= normalisation preserves well-formedness ================= *)
@@ -390,7 +480,7 @@ Fixpoint wfe1 (e : exp) : Prop :=
   | EUn u x => wfe1 x /\ isfield x = false /\ can (shape (EUn u x)) = true /\ match u with BNot => False | _ => True end
   | EBin b l r => wf_bop b = true /\ wfe1 l /\ isfield l = false /\ wfe1 r /\ isfield r = false
   | EParen x => wfe1 x /\ isfield x = false
-  | ETable fs => all fs true
+  | ETable fs | ETableML fs => all fs true
   | FPos x => wfe1 x /\ isfield x = false
   | FNamed n x => wf_name n /\ wfe1 x /\ isfield x = false
   | FKey k x => wfe1 k /\ isfield k = false /\ wfe1 x /\ isfield x = false
@@ -462,67 +552,17 @@ Proof.
   - destruct W as (W & F). cbn [wfe]. split; [apply IHe; exact W|rewrite (isfield_nexp _ _ W); exact F].
   - destruct W as (N & W & F). cbn [wfe]. split; [exact N|]. split; [apply IHe; exact W|rewrite (isfield_nexp _ _ W); exact F].
   - destruct W as (W1 & F1 & W2 & F2). cbn [wfe]. split; [apply IHe1; exact W1|]. split; [rewrite (isfield_nexp _ _ W1); exact F1|]. split; [apply IHe2; exact W2|rewrite (isfield_nexp _ _ W2); exact F2].
+  - (* table over several lines *) change (wfl (map (nexp Parens.Std) fs) true). change (wfl1 fs true) in W. induction fs as [|a r IHr]; [exact I|].
+    inversion H as [|? ? Ha Hr]; subst. destruct W as [[Wa Fa] Wr]. cbn [map wfl]. split; [split; [apply Ha; exact Wa|rewrite (isfield_nexp _ _ Wa); exact Fa]|apply IHr; assumption].
 Qed.
 
 (* ================= statements ================= *)
 (* "good segment": its tokens are well formed and each is compatible with what follows, given the first character [n]
    of what follows the segment *)
-Definition gs (x : list tok) (n : LexAdj.nc) : Prop := Forall wf_tok x /\ adj_ok x n = true.
-Lemma gs_nil n : gs [] n. Proof. split; [constructor|reflexivity]. Qed.
-Lemma gs_cons t r n : wf_tok t -> safe t (nextc r n) = true -> gs r n -> gs (t :: r) n.
-Proof. intros W S [A B]. split; [constructor; assumption|]. rewrite adj_cons, S, B. reflexivity. Qed.
-Lemma gs_app a b n : gs a (nextc b n) -> gs b n -> gs (a ++ b) n.
-Proof. intros [A1 A2] [B1 B2]. split; [apply Forall_app; split; assumption|]. rewrite adj_app, A2, B2. reflexivity. Qed.
-Lemma gs_pexp e n : wfe e -> okn e n = true -> gs (pexp e) n.
+Lemma gs_pexp d e n : wfe e -> okn e n = true -> gs (pexp d e) n.
 Proof. intros W K. split; [apply wf_toks_pexp; exact W|apply adj_pexp; assumption]. Qed.
 
 Notation c := cf (only parsing).
-Definition eolc : ascii := if windows0 c then Lex.CR else Lex.LF.
-Lemma nextc_eol r n : nextc (eol c :: r) n = Some eolc. Proof. unfold eol, eolc. destruct (windows0 c); reflexivity. Qed.
-Lemma wf_eol : wf_tok (eol c). Proof. unfold eol. destruct (windows0 c); [right; left; reflexivity|left; reflexivity]. Qed.
-Lemma safe_eol n : safe (eol c) n = true. Proof. unfold eol. destruct (windows0 c); reflexivity. Qed.
-Lemma clo_eolc : clo (Some eolc) = true. Proof. unfold eolc. destruct (windows0 c); reflexivity. Qed.
-Lemma word_eolc : LexAdj.word_follow (Some eolc) = true. Proof. unfold eolc. destruct (windows0 c); reflexivity. Qed.
-Lemma gs_eol r n : gs r n -> gs (eol c :: r) n.
-Proof. intros H. apply gs_cons; [apply wf_eol|apply safe_eol|exact H]. Qed.
-(* what may follow a statement on its line: the blank before a trailing comment, or the line ending *)
-Definition eolish (n : LexAdj.nc) : bool := match n with Some x => Ascii.eqb x Lex.SP || Ascii.eqb x Lex.CR || Ascii.eqb x Lex.LF | None => false end.
-Lemma eolish_clo n : eolish n = true -> clo n = true.
-Proof. destruct n as [x|]; [|discriminate]. cbn. intros H. cases_of H; reflexivity. Qed.
-Lemma eolish_word n : eolish n = true -> LexAdj.word_follow n = true. Proof. intros H. apply clo_word. apply eolish_clo. exact H. Qed.
-Lemma eolish_eolc : eolish (Some eolc) = true. Proof. unfold eolc. destruct (windows0 c); reflexivity. Qed.
-
-(* keywords *)
-Lemma gs_word s r n : wf_tok (kw s) -> (match str s with c0 :: _ => Lex.is_ident_start c0 | [] => false end) = true ->
-  LexAdj.word_follow (nextc r n) = true -> gs r n -> gs (kw s :: r) n.
-Proof. intros W I F H. apply gs_cons; [exact W|apply safe_kw_word; assumption|exact H]. Qed.
-Lemma gs_sp r n : (exists ch, nextc r n = Some ch /\ nb ch = true) -> gs r n -> gs (sp :: r) n.
-Proof. intros (ch & E & B) H. apply gs_cons; [apply wf_sp|rewrite E; apply safe_sp; exact B|exact H]. Qed.
-Lemma gs_sym s r n : wf_tok (kw s) -> safe (kw s) (nextc r n) = true -> gs r n -> gs (kw s :: r) n.
-Proof. intros. apply gs_cons; assumption. Qed.
-
-(* the indentation of a line (an indent width of zero would print an empty whitespace token: excluded) *)
-Hypothesis Hwidth : spaces0 c = true -> width0 c <> 0.
-Lemma blank_nb_follow ch : nb ch = true -> negb (blank ch) && negb (Lex.eqc ch Lex.LF) && negb (Lex.eqc ch Lex.CR) = true.
-Proof. intros H. exact H. Qed.
-Lemma gs_indent d r n : (exists ch, nextc r n = Some ch /\ nb ch = true) -> gs r n -> gs (indent c d ++ r) n.
-Proof.
-  intros (ch & E & B) H. destruct d as [|d]; [exact H|]. unfold indent. cbn [app].
-  assert (X : exists x k, (if spaces0 c return bytes then repeat Lex.SP (S d * width0 c) else repeat Lex.TAB (S d)) = x :: k /\ blank x = true /\ forallb blank k = true).
-  { destruct (spaces0 c) eqn:Sp.
-    - destruct (width0 c) as [|w] eqn:Wd; [exfalso; apply (Hwidth eq_refl); reflexivity|].
-      exists Lex.SP, (repeat Lex.SP (w + d * S w)). split; [reflexivity|]. split; [reflexivity|]. apply Fmt0Proof.forallb_repeat. reflexivity.
-    - exists Lex.TAB, (repeat Lex.TAB d). split; [reflexivity|]. split; [reflexivity|]. apply Fmt0Proof.forallb_repeat. reflexivity. }
-  destruct X as (x & k & EQ & B1 & B2). rewrite EQ. apply gs_cons; [| |exact H].
-  - right. right. split; [discriminate|]. cbn [forallb]. rewrite B1, B2. reflexivity.
-  - rewrite E. cbn [safe].
-    assert (N1 : beqb (x :: k) [Lex.LF] = false).
-    { destruct k; cbn [beqb]; [|apply andb_false_r]. rewrite andb_true_r. unfold blank in B1. destruct (Lex.eqc x Lex.LF) eqn:Q; [|reflexivity]. apply Ascii.eqb_eq in Q. subst x. discriminate. }
-    assert (N2 : beqb (x :: k) [Lex.CR; Lex.LF] = false).
-    { cbn [beqb]. unfold blank in B1. destruct (Lex.eqc x Lex.CR) eqn:Q; [|reflexivity]. apply Ascii.eqb_eq in Q. subst x. discriminate. }
-    rewrite N1, N2. cbn [orb]. exact B.
-Qed.
-
 (* lists separated by `, ` *)
 Definition elemg (x : list tok) : Prop :=
   exists ch, nb ch = true /\ (forall n, nextc x n = Some ch) /\ (forall n, clo n = true -> gs x n).
@@ -538,7 +578,7 @@ Lemma nextc_commas_g x r n : elemg x -> exists ch, nextc (commas (x :: r)) n = S
 Proof.
   intros Hx. rewrite (nextc_commas x r n (elemg_elem x Hx)). destruct Hx as (ch & B & N & _). exists ch. split; [apply N|exact B].
 Qed.
-Lemma elemg_pexp e : wfe e -> elemg (pexp e).
+Lemma elemg_pexp d e : wfe e -> elemg (pexp d e).
 Proof.
   intros W. exists (fc e). split; [apply fc_nb; exact W|]. split; [intros n; apply nextc_pexp; exact W|].
   intros n C. apply gs_pexp; [exact W|apply okn_of_clo; exact C].
@@ -549,11 +589,11 @@ Proof.
   split; [intros n; subst nm; reflexivity|]. intros n C. apply gs_cons; [exact W|apply clo_word; exact C|apply gs_nil].
 Qed.
 Definition wfes (es : list exp) : Prop := Forall (fun e => wfe e /\ isfield e = false) es.
-Lemma gs_pexps es m : wfes es -> clo m = true -> gs (Fmt0.pexps cf es) m.
+Lemma gs_pexps d es m : wfes es -> clo m = true -> gs (Fmt0.pexps cf d es) m.
 Proof. intros W M. apply gs_commas; [|exact M]. apply Forall_map. eapply Forall_impl; [|exact W]. intros e [We _]. apply elemg_pexp. exact We. Qed.
 Lemma gs_pnames ns m : Forall wf_name ns -> clo m = true -> gs (pnames ns) m.
 Proof. intros W M. apply gs_commas; [|exact M]. apply Forall_map. eapply Forall_impl; [|exact W]. intros nm. apply elemg_name. Qed.
-Lemma first_pexps e es n : wfe e -> exists ch, nextc (Fmt0.pexps cf (e :: es)) n = Some ch /\ nb ch = true.
+Lemma first_pexps d e es n : wfe e -> exists ch, nextc (Fmt0.pexps cf d (e :: es)) n = Some ch /\ nb ch = true.
 Proof. intros W. unfold Fmt0.pexps. cbn [map]. apply nextc_commas_g. apply elemg_pexp. exact W. Qed.
 Lemma first_pnames nm ns n : wf_name nm -> exists ch, nextc (pnames (nm :: ns)) n = Some ch /\ nb ch = true.
 Proof. intros W. unfold pnames. cbn [map]. apply nextc_commas_g. apply elemg_name. exact W. Qed.
@@ -595,7 +635,7 @@ Proof.
     try (rewrite Fmt0Proof.p_if; match goal with |- context [if_guard ?a ?b ?c] => destruct (if_guard a b c) end; eexists; split; reflexivity).
   - destruct es; eexists; split; reflexivity.
   - cbn [pstmt psimple]. destruct W as (N & _ & W & _). destruct vs as [|x vs]; [contradiction|]. inversion W as [|? ? [Wx _] _]; subst.
-    destruct (first_pexps x vs None Wx) as (ch & E & B). exists ch. split; [|exact B].
+    destruct (first_pexps d x vs None Wx) as (ch & E & B). exists ch. split; [|exact B].
     rewrite nextc_app_ne; [exact E|]. intros Q. rewrite Q in E. discriminate.
   - cbn [pstmt psimple]. destruct W as [W _]. exists (fc e). split; [apply nextc_pexp; exact W|apply fc_nb; exact W].
   - destruct es; eexists; split; reflexivity.
@@ -616,7 +656,7 @@ Definition Is (i : item) : Prop := wfi i -> forall d n, gs (pitem c d i) n.
 Definition Bs (b : blk) : Prop := wfb b -> forall d n, gs (pblk c d b) n.
 Lemma gs_block_end b d n : Bs b -> wfb b -> eolish n = true -> gs (pblk c (S d) b ++ indent c d ++ [kw "end"]) n.
 Proof. intros H W E. apply gs_app; [apply H; exact W|apply gs_end; exact E]. Qed.
-Lemma first_cond e r n : wfe e -> exists ch, nextc (pexp e ++ r) n = Some ch /\ nb ch = true.
+Lemma first_cond d e r n : wfe e -> exists ch, nextc (pexp d e ++ r) n = Some ch /\ nb ch = true.
 Proof. intros W. rewrite nextc_app_ne by apply pexp_ne. exists (fc e). split; [apply nextc_pexp; exact W|apply fc_nb; exact W]. Qed.
 Lemma gs_com x r n : wf_com x -> nextc r n = Some Lex.LF -> gs r n -> gs (TLineCom x :: r) n.
 Proof. intros (A & B & _) E H. apply gs_cons; [split; assumption|rewrite E; reflexivity|exact H]. Qed.
@@ -636,23 +676,23 @@ Proof.
   apply gs_app; [apply Hi; exact W1|apply IH; exact W2].
 Qed.
 (* the statements without a block inside, as the collapsed forms print them *)
-Lemma gs_psimple s n : wfs s -> simple_stmt s = true -> eolish n = true -> gs (psimple c s) n.
+Lemma gs_psimple d s n : wfs s -> simple_stmt s = true -> eolish n = true -> gs (psimple c d s) n.
 Proof.
   intros H S H0. destruct s; try discriminate; cbn [wfs] in H.
   - (* local *) destruct H as (N & Wn & We). destruct ns as [|x ns']; [contradiction|]. inversion Wn as [|? ? Wx _]; subst.
     destruct es as [|e es']; cbn [psimple]; idtac.
     + word. apply gs_sp; [destruct (first_pnames x ns' n Wx) as (ch & E & B); exists ch; split; assumption|]. apply gs_pnames; [exact Wn|apply eolish_clo; exact H0].
     + inversion We as [|? ? [Wee _] _]; subst. word. apply gs_sp; [destruct (first_pnames x ns' None Wx) as (ch & E & B); exists ch; split; [|exact B]; rewrite nextc_app_ne; [exact E|intros Q; rewrite Q in E; discriminate]|].
-      apply gs_app; [apply gs_pnames; [exact Wn|reflexivity]|]. spc. apply gs_sym; [wfkw|reflexivity|]. apply gs_sp; [apply (first_pexps e es' n Wee)|]. apply gs_pexps; [exact We|apply eolish_clo; exact H0].
+      apply gs_app; [apply gs_pnames; [exact Wn|reflexivity]|]. spc. apply gs_sym; [wfkw|reflexivity|]. apply gs_sp; [apply (first_pexps d e es' n Wee)|]. apply gs_pexps; [exact We|apply eolish_clo; exact H0].
   - (* assignment *) destruct H as (N1 & N2 & Wv & We). cbn [psimple]. destruct es as [|e es']; [contradiction|]. inversion We as [|? ? [Wee _] _]; subst.
-    apply gs_app; [apply gs_pexps; [exact Wv|reflexivity]|]. spc. apply gs_sym; [wfkw|reflexivity|]. apply gs_sp; [apply (first_pexps e es' n Wee)|]. apply gs_pexps; [exact We|apply eolish_clo; exact H0].
+    apply gs_app; [apply gs_pexps; [exact Wv|reflexivity]|]. spc. apply gs_sym; [wfkw|reflexivity|]. apply gs_sp; [apply (first_pexps d e es' n Wee)|]. apply gs_pexps; [exact We|apply eolish_clo; exact H0].
   - (* call *) destruct H as [W _]. cbn [psimple]. apply gs_pexp; [exact W|apply okn_of_clo; apply eolish_clo; exact H0].
   - (* return *) destruct es as [|e es']; cbn [psimple]; idtac.
     + apply gs_word; [wfkw|reflexivity|apply eolish_word; exact H0|apply gs_nil].
-    + inversion H as [|? ? [Wee _] _]; subst. word. apply gs_sp; [apply (first_pexps e es' n Wee)|]. apply gs_pexps; [exact H|apply eolish_clo; exact H0].
+    + inversion H as [|? ? [Wee _] _]; subst. word. apply gs_sp; [apply (first_pexps d e es' n Wee)|]. apply gs_pexps; [exact H|apply eolish_clo; exact H0].
   - (* break *) cbn [psimple]. apply gs_word; [wfkw|reflexivity|apply eolish_word; exact H0|apply gs_nil].
 Qed.
-Lemma pstmt_simple s d : simple_stmt s = true -> pstmt c d s = psimple c s.
+Lemma pstmt_simple s d : simple_stmt s = true -> pstmt c d s = psimple c d s.
 Proof. destruct s; try discriminate; reflexivity. Qed.
 Lemma simple_blk_wfs b s1 : simple_blk b = Some s1 -> wfb b -> wfs s1 /\ simple_stmt s1 = true.
 Proof.
@@ -662,10 +702,10 @@ Proof.
   - destruct l; [|discriminate]. destruct t; discriminate.
 Qed.
 (* ` <statement> end` behind `then` or a function header *)
-Lemma gs_collapsed s1 n : wfs s1 -> simple_stmt s1 = true -> eolish n = true -> gs (sp :: psimple c s1 ++ [sp; kw "end"]) n.
+Lemma gs_collapsed d s1 n : wfs s1 -> simple_stmt s1 = true -> eolish n = true -> gs (sp :: psimple c d s1 ++ [sp; kw "end"]) n.
 Proof.
   intros W S E. apply gs_sp.
-  - destruct (first_pstmt s1 0 None W) as (ch & E1 & B). rewrite (pstmt_simple s1 0 S) in E1. exists ch. split; [|exact B].
+  - destruct (first_pstmt s1 d None W) as (ch & E1 & B). rewrite (pstmt_simple s1 d S) in E1. exists ch. split; [|exact B].
     rewrite nextc_app_ne; [exact E1|intros Q; rewrite Q in E1; discriminate].
   - apply gs_app; [apply gs_psimple; [exact W|exact S|reflexivity]|]. spc. apply gs_word; [wfkw|reflexivity|apply eolish_word; exact E|apply gs_nil].
 Qed.
@@ -674,7 +714,8 @@ Proof.
   intros H W E. unfold Fmt0Proof.fbody. destruct (blk_empty b).
   - spc. apply gs_word; [wfkw|reflexivity|apply eolish_word; exact E|apply gs_nil].
   - destruct (fun_guard c b) as [s1|] eqn:G.
-    + unfold fun_guard in G. destruct (collapse_fun (collapse0 c)); [|discriminate]. destruct (simple_blk_wfs b s1 G W) as [W1 S1]. apply gs_collapsed; assumption.
+    + destruct (oneline (psimple c d s1)); [|apply gs_eol; apply gs_block_end; assumption].
+      unfold fun_guard in G. destruct (collapse_fun (collapse0 c)); [|discriminate]. destruct (simple_blk_wfs b s1 G W) as [W1 S1]. apply gs_collapsed; assumption.
     + apply gs_eol. apply gs_block_end; assumption.
 Qed.
 Lemma nextc_pparams ps va r n : exists ch, nextc (pparams c ps va ++ r) n = Some ch /\ LexAdj.word_follow (Some ch) = true.
@@ -716,9 +757,9 @@ Proof.
       destruct es as [|e es']; cbn [pstmt psimple]; idtac.
       * word. apply gs_sp; [destruct (first_pnames x ns' n Wx) as (ch & E & B); exists ch; split; assumption|]. apply gs_pnames; [exact Wn|apply eolish_clo; exact H0].
       * inversion We as [|? ? [Wee _] _]; subst. word. apply gs_sp; [destruct (first_pnames x ns' None Wx) as (ch & E & B); exists ch; split; [|exact B]; rewrite nextc_app_ne; [exact E|intros Q; rewrite Q in E; discriminate]|].
-        apply gs_app; [apply gs_pnames; [exact Wn|reflexivity]|]. spc. apply gs_sym; [wfkw|reflexivity|]. apply gs_sp; [apply (first_pexps e es' n Wee)|]. apply gs_pexps; [exact We|apply eolish_clo; exact H0].
+        apply gs_app; [apply gs_pnames; [exact Wn|reflexivity]|]. spc. apply gs_sym; [wfkw|reflexivity|]. apply gs_sp; [apply (first_pexps d e es' n Wee)|]. apply gs_pexps; [exact We|apply eolish_clo; exact H0].
     + (* assignment *) destruct H as (N1 & N2 & Wv & We). cbn [pstmt psimple]. destruct es as [|e es']; [contradiction|]. inversion We as [|? ? [Wee _] _]; subst.
-      apply gs_app; [apply gs_pexps; [exact Wv|reflexivity]|]. spc. apply gs_sym; [wfkw|reflexivity|]. apply gs_sp; [apply (first_pexps e es' n Wee)|]. apply gs_pexps; [exact We|apply eolish_clo; exact H0].
+      apply gs_app; [apply gs_pexps; [exact Wv|reflexivity]|]. spc. apply gs_sym; [wfkw|reflexivity|]. apply gs_sp; [apply (first_pexps d e es' n Wee)|]. apply gs_pexps; [exact We|apply eolish_clo; exact H0].
     + (* call *) destruct H as [W _]. cbn [pstmt psimple]. apply gs_pexp; [exact W|apply okn_of_clo; apply eolish_clo; exact H0].
     + (* do *) rewrite Fmt0Proof.p_do. word. apply gs_eol. apply gs_block_end; assumption.
     + (* while *) destruct H0 as [[We _] Wb]. rewrite Fmt0Proof.p_while. word. apply gs_sp; [apply first_cond; exact We|].
@@ -746,7 +787,7 @@ Proof.
       destruct es as [|e es']; [contradiction|]. inversion We as [|? ? [Wee _] _]; subst.
       word. apply gs_sp; [destruct (first_pnames x ns' None Wx) as (ch & E & B); exists ch; split; [|exact B]; rewrite nextc_app_ne; [exact E|intros Q; rewrite Q in E; discriminate]|].
       apply gs_app; [apply gs_pnames; [exact Wn|reflexivity]|]. spc. word.
-      apply gs_sp; [destruct (first_pexps e es' None Wee) as (ch & E & B); exists ch; split; [|exact B]; rewrite nextc_app_ne; [exact E|intros Q; rewrite Q in E; discriminate]|].
+      apply gs_sp; [destruct (first_pexps d e es' None Wee) as (ch & E & B); exists ch; split; [|exact B]; rewrite nextc_app_ne; [exact E|intros Q; rewrite Q in E; discriminate]|].
       apply gs_app; [apply gs_pexps; [exact We|reflexivity]|]. spc. word. apply gs_eol. apply gs_block_end; assumption.
     + (* function *) destruct H0 as (N & Wp & Wm & Wps & Wbody). rewrite Fmt0Proof.p_function. word.
       assert (T : gs (pparams c ps va ++ Fmt0Proof.fbody c d body) n) by (apply gs_pparams; [exact Wps|apply gs_fbody; assumption]).
@@ -763,7 +804,7 @@ Proof.
       apply gs_cons; [exact Wx|destruct (nextc_pparams ps va (Fmt0Proof.fbody c d body) n0) as (ch & E1 & E2); rewrite E1; exact E2|]. apply gs_pparams; [exact Wps|apply gs_fbody; assumption].
     + (* return *) destruct es as [|e es']; cbn [pstmt psimple]; idtac.
       * apply gs_word; [wfkw|reflexivity|apply eolish_word; exact H0|apply gs_nil].
-      * inversion H as [|? ? [Wee _] _]; subst. word. apply gs_sp; [apply (first_pexps e es' n Wee)|]. apply gs_pexps; [exact H|apply eolish_clo; exact H0].
+      * inversion H as [|? ? [Wee _] _]; subst. word. apply gs_sp; [apply (first_pexps d e es' n Wee)|]. apply gs_pexps; [exact H|apply eolish_clo; exact H0].
     + (* break *) cbn [pstmt psimple]. apply gs_word; [wfkw|reflexivity|apply eolish_word; exact H0|apply gs_nil].
     + (* no else *) apply gs_nil.
     + (* else *) rewrite Fmt0Proof.p_else. apply gs_indent; [eexists; split; reflexivity|]. word. apply gs_eol. apply H. exact H0.
@@ -910,6 +951,7 @@ Proof.
   - destruct W as (W & F). cbn [wfe]. split; [apply IHe; exact W|rewrite isfield_cexp; exact F].
   - destruct W as (N & W & F). cbn [wfe]. split; [exact N|]. split; [apply IHe; exact W|rewrite isfield_cexp; exact F].
   - destruct W as (W1 & F1 & W2 & F2). cbn [wfe]. split; [apply IHe1; exact W1|]. split; [rewrite isfield_cexp; exact F1|]. split; [apply IHe2; exact W2|rewrite isfield_cexp; exact F2].
+  - change (wfl (map (cexp m false) fs) true). apply wfl_map_cexp; assumption.
 Qed.
 Theorem wfb_norm0 p : wfb1 p -> wfb (norm0 c p).
 Proof.
@@ -922,13 +964,15 @@ Theorem format0_relexes p : wfb1 p ->
 Proof. intros W. unfold format0. apply pprog_relexes. apply wfb_norm0. exact W. Qed.
 End Lexical.
 
-(* non-vacuity: a program with a comment, a guarded double minus, a call with a number and a string, a nested block *)
+(* non-vacuity: a program with a comment, a guarded double minus, a call with a number and a string, a nested block,
+   a table written over several lines with another one inside *)
 Definition v51 : ver := {| v52 := false; v53 := false; v54 := false; vluau := false; vjit := false |}.
 Definition cfg_example : cfg0 := {| windows0 := false; spaces0 := false; width0 := 4; style0 := QuoteMore.AutoDouble; callp0 := CallForm.NoSingleTable; space0 := CallForm.SCalls; collapse0 := CAlways |}.
 Definition prog_example : blk :=
   Blk [ Item [(false, str " a comment")] false
           (SLocal [str "x"] [EUn Neg (EParen (EUn Neg (ECall (EName (str "f")) false [ENum (str "12"); EStr (str "it's")])))]) (Some (str " trailing"));
-        Item [] true (SWhile (EBin Lt (EName (str "x")) (ENum (str "3"))) (Blk [Item [] false (SCall (EMethod (EName (str "o")) (str "m") true [EStr (str "sugar")])) None] [(false, str " end of block")])) None ] [].
+        Item [] true (SWhile (EBin Lt (EName (str "x")) (ENum (str "3"))) (Blk [Item [] false (SCall (EMethod (EName (str "o")) (str "m") true [EStr (str "sugar")])) None] [(false, str " end of block")])) None;
+        Item [] false (SLocal [str "t"] [ETableML [FNamed (str "a") (ENum (str "1")); FPos (ETableML [FPos (EName (str "x"))])]]) None ] [].
 Example example_is_well_formed : wfb1 v51 cfg_example prog_example.
 Proof.
   cbn. repeat split; try reflexivity; try discriminate; try (repeat constructor; fail);
